@@ -42,7 +42,7 @@ def option_known_some(res, read_event):
 def check_out_of_data(ctx, F):
     targets = []
     for b in F.bodies:
-        if b.promoted is not None or b.dk != 'AssocFn' or not b.file.endswith('stream/chain.rs') or '::tests::' in b.defpath:
+        if b.promoted is not None or b.dk != 'AssocFn' or not b.file.endswith('stream/chain.rs') or 'pybindings' in b.file or '::tests::' in b.defpath:
             continue
         direct = any((rules.callee(t) or {}).get('def') == 'backends::ReadWords::read' for _, t in b.calls())
         if not direct:
@@ -77,7 +77,8 @@ def check_out_of_data(ctx, F):
                 if h is not None and h is not b and h.file.endswith('stream/chain.rs') and any((rules.callee(t2) or {}).get('def') == 'backends::ReadWords::read' for _, t2 in h.calls()):
                     n_reads += 1
                     res = e['result']
-                    went_on_ok = any(t[0] == 'discr' and ((t[1] == ('try', res) and sym.discr_variant(t, v) == 'Continue') or (t[1] == res and sym.discr_variant(t, v) == 'Ok')) for t, v, _ in r.preds)
+                    # the decision may be taken on the result itself or on what a combinator (map_err, ..) made of it
+                    went_on_ok = any(t[0] == 'discr' and sym.contains(t[1], lambda x, res=res: x == res) and sym.discr_variant(t, v) in ('Continue', 'Ok') for t, v, _ in r.preds)
                     if not went_on_ok:
                         bad = 'a path continues (%s) after %s at %s without the Ok / Continue decision of its result: "no word left" is swallowed and the function goes on with a head that was not refilled' % (r.end, e['callee'].rsplit('::', 1)[-1], e['span'].split('-')[0])
         if bad:
